@@ -1,8 +1,9 @@
 /-
 C04 — Chunk-removal strategies only ever delete reducible atoms.
-(minimize here; around/balanced are added with their models.)
+(minimize, minimize-around and minimize-balanced without the experimental move.)
 -/
 import LithiumProofs.MinimizeLog
+import LithiumProofs.Frame
 
 namespace Strat
 open Testcase
@@ -49,6 +50,27 @@ example :
     let t : Testcase := { before := [0], parts := [[1], [2], [3]], reducible := [true, false, true], after := [9] }
     t.WF ∧ (minimize {} (fun _ _ => true) (fun _ => 0) t).best.parts = [[2]] ∧
       (minimize {} (fun _ _ => true) (fun _ => 0) t).best.reducible = [false] := by
+  decide
+
+/-- minimize-around and minimize-balanced (without the experimental move), for EVERY test, option
+setting, clock and well-formed testcase: the final best, every proposal (tested or de-duplicated)
+and the basis each proposal was built on is the original with zero or more reducible atoms
+deleted. -/
+theorem C04_deletion_pairs (cfg : Cfg) (o : Oracle) (clk : Clock) (t : Testcase) (h : t.WF) :
+    (IsDel t (around cfg o clk t).best ∧
+      ∀ a ∈ (around cfg o clk t).atts, IsDel t a.cand ∧ IsDel t a.base) ∧
+    (IsDel t (balanced cfg o clk t).best ∧
+      ∀ a ∈ (balanced cfg o clk t).atts, IsDel t a.cand ∧ IsDel t a.base) := by
+  have ha := around_allT _ (isDel_closed t) cfg o clk t (isDel_refl t h)
+  have hb := balanced_allT _ (isDel_closed t) cfg o clk t (isDel_refl t h)
+  exact ⟨⟨ha.best, ha.atts⟩, ⟨hb.best, hb.atts⟩⟩
+
+/-- non-vacuity: `(b)c` in char mode with non-reducible `b`, always-yes test: both strategies delete
+reducible atoms only and keep the non-reducible part in place -/
+example :
+    let t : Testcase := { before := [0], parts := [[0x28], [0x62], [0x29], [0x63]], reducible := [true, false, true, true], after := [9] }
+    t.WF ∧ (balanced {} (fun _ _ => true) (fun _ => 0) t).best.parts = [[0x28], [0x62]] ∧
+      (around {} (fun _ _ => true) (fun _ => 0) t).best.parts = [[0x62], [0x29]] := by
   decide
 
 end Strat
